@@ -90,13 +90,46 @@ def run(ctx):
     # fold is min, result is min + n
     ret = tb.return_term()
     okr = False
+    why_seed = ""
     lv = [s for s in subterms(ret) if s[0] == "loopvar"]
     if ret[0] == "op" and ret[1] == "Add" and lv:
         upd = tb.loop_update(lv[0][1], lv[0][2])
         cellt = ("index", ("field", selfp, "table"), want)
         alts = set(map(repr, upd[1])) if upd[0] == "phi" else {repr(upd)}
         okr = alts <= {repr(cellt), repr(mk("min", cellt, lv[0]))} and repr(mk("min", cellt, lv[0])) in alts and set(map(repr, ret[2])) == {repr(lv[0]), repr(("param", 3, add_n.local_name(3)))}
-    ctx.check(okr, "R02-return-min", add_n.key, add_n, "add_n returns checked(min over the rows of the old cells + n)", "add_n's return value is %s with fold %s" % (fmt(ret), fmt(tb.loop_update(lv[0][1], lv[0][2])) if lv else "?"))
+        # the un-folded alternative (seeding the minimum with the cell itself) is only sound for the first row:
+        # it must sit under the fact `row index == 0`, and the min alternative under its negation
+        if okr and repr(cellt) in alts:
+            from ..guards import atomic_facts
+            first_row = mk("Eq", ("enum_idx", S), const(0))
+            seeds_ok = True
+            h = lv[0][2]
+            body = add_n.natural_loop(h)
+            # walk the value flowing into the loop-carried local back through plain copies to the defining blocks
+            def origins(l, seen):
+                out = []
+                for (b, i, kind, obj) in add_n.defs().get(l, []):
+                    if b not in body or (l, b, i) in seen:
+                        continue
+                    seen.add((l, b, i))
+                    if kind == "stmt" and obj.rv.k == "use" and obj.rv.ops[0].place is not None and obj.rv.ops[0].place.is_local():
+                        sub = origins(obj.rv.ops[0].place.local, seen)
+                        out += sub if sub else [(b, tb._def_term(l, (b, i, kind, obj)))]
+                    else:
+                        out.append((b, tb._def_term(l, (b, i, kind, obj))))
+                return out
+            for (b, t_def) in origins(lv[0][1], set()):
+                facts = {repr(c): tr for c, tr in atomic_facts(add_n, prog, b, tb)}
+                fr = facts.get(repr(first_row))
+                if t_def == cellt and fr is not True:
+                    seeds_ok = False
+                if t_def == mk("min", cellt, lv[0]) and fr is not False:
+                    seeds_ok = False
+            okr = seeds_ok
+            if not seeds_ok:
+                why_seed = "the running minimum is re-seeded with the current cell on a condition other than `row == 0`, so an earlier smaller row can be forgotten"
+    ctx.check(okr, "R02-return-min", add_n.key, add_n, "add_n returns checked(min over the rows of the old cells + n); the fold is seeded by the first row only",
+              (why_seed + "; " if why_seed else "") + "add_n's return value is %s with fold %s" % (fmt(ret), fmt(tb.loop_update(lv[0][1], lv[0][2])) if lv else "?"))
 
     # ---- checked only ---------------------------------------------------------------------------------------
     n_checked = 0
